@@ -129,9 +129,18 @@ SwitchArms(d) ==
     LET name == d.switch_arms[k].name
         e    == d.entry[CHOOSE i \in 1..Len(d.entry) : d.entry[i].name = name].idx
     IN  d.renumber[e + 1].arm /\ d.renumber[e + 1].renum = d.switch_arms[k].idx
-\* states with exactly one predecessor (and not initial) are inlined, all others have arms
-InlineRule(d) ==
-  \A i \in 1..Len(d.dfa) : d.renumber[i].arm = ~(Len(d.dfa[i].preds) = 1 /\ ~d.dfa[i].initial)
+\* A state is inlined into its predecessor when it has exactly one predecessor, is not an entry
+\* state, and exactly one `match` arm of the predecessor leads to it (the predecessor has one arm
+\* for all its character transitions to a state, one for all its range transitions, one for `_`);
+\* all other states have their own arm.
+ArmsInto(d, i) ==       \* i: 1-based index of a state with exactly one predecessor
+  LET pr == d.dfa[d.dfa[i].preds[1] + 1]
+      hit(t) == t.s = i - 1
+  IN  (IF \E k \in 1..Len(pr.chars) : hit(pr.chars[k].t) THEN 1 ELSE 0)
+      + (IF \E k \in 1..Len(pr.ranges) : hit(pr.ranges[k].t) THEN 1 ELSE 0)
+      + (IF \E k \in 1..Len(pr.any) : hit(pr.any[k]) THEN 1 ELSE 0)
+IsInlined(d, i) == Len(d.dfa[i].preds) = 1 /\ ~d.dfa[i].initial /\ ArmsInto(d, i) = 1
+InlineRule(d) == \A i \in 1..Len(d.dfa) : d.renumber[i].arm = ~IsInlined(d, i)
 
 (***************************************************************************)
 (* dfa/simplify.rs as a function of the automaton before it: states        *)
@@ -170,7 +179,7 @@ SimplifyOK(d) ==
 RenumberOK(d) ==
   \A i \in 1..Len(d.dfa) :
     d.renumber[i].renum =
-      (i - 1) - Cardinality({j \in 1..(i - 1) : Len(d.dfa[j].preds) = 1})
+      (i - 1) - Cardinality({j \in 1..(i - 1) : IsInlined(d, j)})
 
 IndexMaps == ArmsInjective(D) /\ ArmPatterns(D) /\ SwitchArms(D) /\ InlineRule(D)
              /\ SimplifyOK(D) /\ RenumberOK(D)
